@@ -1080,6 +1080,15 @@ func (fi *FuncInfo) okTested(gs []Cond, d *defSite) bool {
 // iteration.
 func (fi *FuncInfo) hasPairCheck() (bool, string) {
 	why := "no pairwise types.Identical test over the provider's inputs found"
+	// what the recognised tests cover: an insertion-form test covers the append that follows it, a test over
+	// all pairs covers every store that is complete before its outer loop starts
+	coveredStores := map[ast.Node]bool{}
+	type pairLoop struct {
+		outer ast.Stmt
+		iv    *types.Var
+	}
+	var globalOuters []pairLoop
+	okMsg := ""
 	for _, id := range fi.callsTo(fnIdentical) {
 		is, ok := fi.parent[id].(*ast.IfStmt)
 		if !ok || ast.Unparen(is.Cond) != ast.Expr(id) {
@@ -1131,13 +1140,15 @@ func (fi *FuncInfo) hasPairCheck() (bool, string) {
 							for _, el := range cl.Elts {
 								if kv, ok := el.(*ast.KeyValueExpr); ok && kv.Key.(*ast.Ident).Name == "Type" && (fi.sameExpr(kv.Value, x) || fi.sameExpr(fi.deref(kv.Value), fi.deref(x))) {
 									appended = true
+									coveredStores[as] = true
 								}
 							}
 						}
 					}
 				}
 				if appended {
-					return true, "each input is compared with every input kept before it, then appended"
+					okMsg = "each input is compared with every input kept before it, then appended"
+					continue
 				}
 			}
 		}
@@ -1292,9 +1303,81 @@ func (fi *FuncInfo) hasPairCheck() (bool, string) {
 		if !rejects {
 			return false, "a matching pair is not rejected"
 		}
-		return true, "all pairs j<i of input types are compared with types.Identical; a match returns an error"
+		okMsg = "all pairs j<i of input types are compared with types.Identical; a match returns an error"
+		globalOuters = append(globalOuters, pairLoop{outer, iv})
 	}
-	return false, why
+	if okMsg == "" {
+		return false, why
+	}
+	// every store into the list of inputs is covered by one of the tests
+	seqVars := map[*types.Var]bool{}
+	isArgsSel := func(e ast.Expr) bool {
+		f := fi.selField(e)
+		return f != nil && f.Name() == "Args" && isNamed(derefType(fi.Info.TypeOf(ast.Unparen(e).(*ast.SelectorExpr).X)), pathW, "Provider")
+	}
+	fi.inspect(fi.Decl.Body, func(nd ast.Node) bool {
+		switch x := nd.(type) {
+		case *ast.KeyValueExpr:
+			if kid, ok := x.Key.(*ast.Ident); ok && kid.Name == "Args" {
+				if v := fi.varOf(x.Value); v != nil {
+					seqVars[v] = true
+				}
+			}
+		case *ast.AssignStmt:
+			for i, l := range x.Lhs {
+				if isArgsSel(l) && i < len(x.Rhs) {
+					if v := fi.varOf(x.Rhs[i]); v != nil {
+						seqVars[v] = true
+					}
+				}
+			}
+		}
+		return true
+	})
+	isInputs := func(e ast.Expr) bool {
+		if isArgsSel(e) {
+			return true
+		}
+		v := fi.varOf(e)
+		return v != nil && seqVars[v]
+	}
+	uncovered := ""
+	fi.inspect(fi.Decl.Body, func(nd ast.Node) bool {
+		as, ok := nd.(*ast.AssignStmt)
+		if !ok || len(as.Lhs) != 1 || len(as.Rhs) != 1 || fi.enclosingLoop(as) == nil {
+			return true
+		}
+		store := false
+		if ix, ok := ast.Unparen(as.Lhs[0]).(*ast.IndexExpr); ok && isInputs(ix.X) {
+			store = true
+		} else if isInputs(as.Lhs[0]) {
+			if ap := fi.isBuiltin(as.Rhs[0], "append"); ap != nil {
+				store = true
+			}
+		}
+		if !store || coveredStores[as] {
+			return true
+		}
+		if fi.insertionByIndex(as, isInputs) {
+			return true
+		}
+		for _, pl := range globalOuters {
+			o := pl.outer
+			if endOf(as) < startOf(o) && !fi.within(o, fi.enclosingLoop(as)) {
+				return true
+			}
+			// input i is stored in the iteration that compares it with the inputs before it
+			if ix, ok := ast.Unparen(as.Lhs[0]).(*ast.IndexExpr); ok && fi.varOf(ix.Index) == pl.iv && fi.enclosingLoop(as) == o && fi.unconditionalIn(as, loopBody(o)) {
+				return true
+			}
+		}
+		uncovered = exprShort(as.Lhs[0])
+		return true
+	})
+	if uncovered != "" {
+		return false, "an input is stored (" + uncovered + ") without being compared with every input stored before it"
+	}
+	return true, okMsg
 }
 
 // loopComplete2: the only exits of loop are inside node allowed (the rejecting branch).
@@ -1319,4 +1402,131 @@ func loopBody(l ast.Stmt) *ast.BlockStmt {
 		return x.Body
 	}
 	return nil
+}
+
+// affineIn reads e as v+off.
+func (fi *FuncInfo) affineIn(e ast.Expr, v *types.Var) (int, bool) {
+	e = ast.Unparen(e)
+	if fi.varOf(e) == v && v != nil {
+		return 0, true
+	}
+	if be, ok := e.(*ast.BinaryExpr); ok && (be.Op == token.ADD || be.Op == token.SUB) {
+		if fi.varOf(be.X) == v {
+			if c, ok := fi.constInt(be.Y); ok {
+				if be.Op == token.SUB {
+					return -int(c), true
+				}
+				return int(c), true
+			}
+		}
+		if be.Op == token.ADD && fi.varOf(be.Y) == v {
+			if c, ok := fi.constInt(be.X); ok {
+				return int(c), true
+			}
+		}
+	}
+	return 0, false
+}
+
+// insertionByIndex recognises the indexed insertion form of the pair test:
+//
+//	for i := F; i < N; i++ { …; for j := A; j < i+B; j++ { if Identical(x, X[j+O].Type) { return error } }; X[i+W] = T{Type: x} }
+//
+// which compares x with exactly the elements stored by the earlier iterations when A+O == F+W and B+O == W
+// (or ranges over the prefix X[:i+W] when F+W == 0).
+func (fi *FuncInfo) insertionByIndex(as *ast.AssignStmt, isInputs func(ast.Expr) bool) bool {
+	ix, ok := ast.Unparen(as.Lhs[0]).(*ast.IndexExpr)
+	if !ok {
+		return false
+	}
+	outer, ok := fi.enclosingLoop(as).(*ast.ForStmt)
+	if !ok {
+		return false
+	}
+	lo := fi.loopShape(outer)
+	if lo == nil || !lo.ascending || lo.inclusive {
+		return false
+	}
+	f0, ok := fi.constInt(lo.fromExpr)
+	if !ok {
+		return false
+	}
+	w, ok := fi.affineIn(ix.Index, lo.v)
+	if !ok {
+		return false
+	}
+	var x ast.Expr
+	if cl, ok := ast.Unparen(as.Rhs[0]).(*ast.CompositeLit); ok {
+		for _, el := range cl.Elts {
+			if kv, ok := el.(*ast.KeyValueExpr); ok {
+				if kid, ok := kv.Key.(*ast.Ident); ok && kid.Name == "Type" {
+					x = kv.Value
+				}
+			}
+		}
+	}
+	blk, _ := fi.parent[as].(*ast.BlockStmt)
+	if x == nil || blk == nil || blk != outer.Body || !fi.loopComplete2(outer, as) {
+		return false
+	}
+	for _, st := range blk.List {
+		if st == ast.Stmt(as) {
+			break
+		}
+		body := loopBody(st)
+		if body == nil {
+			continue
+		}
+		for _, s := range body.List {
+			is, ok := s.(*ast.IfStmt)
+			if !ok || !terminates(is.Body) {
+				continue
+			}
+			id := fi.isCall(is.Cond, fnIdentical)
+			if id == nil {
+				continue
+			}
+			rejects := false
+			for _, ret := range returnsIn(is.Body) {
+				if len(ret.Results) > 0 && !fi.isNilIdent(ret.Results[len(ret.Results)-1]) {
+					rejects = true
+				}
+			}
+			if !rejects {
+				continue
+			}
+			for k, a := range id.Args {
+				if !(fi.sameExpr(a, x) || fi.sameExpr(fi.deref(a), fi.deref(x))) {
+					continue
+				}
+				sel, ok := ast.Unparen(fi.deref(id.Args[1-k])).(*ast.SelectorExpr)
+				if !ok || sel.Sel.Name != "Type" {
+					continue
+				}
+				switch in := st.(type) {
+				case *ast.ForStmt:
+					li := fi.loopShape(in)
+					jx, ok := ast.Unparen(fi.deref(sel.X)).(*ast.IndexExpr)
+					if li == nil || !ok || !li.ascending || li.inclusive || !isInputs(jx.X) {
+						continue
+					}
+					a0, ok1 := fi.constInt(li.fromExpr)
+					b, ok2 := fi.affineIn(li.boundExpr, lo.v)
+					o, ok3 := fi.affineIn(jx.Index, li.v)
+					if ok1 && ok2 && ok3 && int(a0)+o == int(f0)+w && b+o == w {
+						return true
+					}
+				case *ast.RangeStmt:
+					se, ok := ast.Unparen(in.X).(*ast.SliceExpr)
+					if !ok || in.Value == nil || fi.varOf(sel.X) != fi.varOf(in.Value) || se.Low != nil || se.Max != nil || !isInputs(se.X) {
+						continue
+					}
+					if h, ok := fi.affineIn(se.High, lo.v); ok && h == w && int(f0)+w == 0 {
+						return true
+					}
+				}
+			}
+		}
+	}
+	return false
 }
